@@ -299,6 +299,10 @@ class Run:
             errs, why = xsdkit.validate_part(etree.tostring(part._element))
             self.val_baseline[part] = errs if errs is not None else None
             self.hashes[part] = part_hash(part)
+        if "C10" in self.deciders:  # duplicates a start deck brings along are not python-pptx's
+            for part in xml_parts(self.prs):
+                if part._element.tag.endswith("}chartSpace"):
+                    self.__dict__.setdefault("idx_dups", {})[part] = {(h_, k_, v_) for h_, k_, v_, _c in _indexed_duplicates(part._element)}
         self.open_images = sorted({part.blob for part in self.prs.part.package.iter_parts() if str(part.partname).startswith("/ppt/media/image")})[:6]
         self.acc.count("decks_opened")
         monitors.SINK.drain()
@@ -316,6 +320,15 @@ class Run:
             h = part_hash(part)
             if self.hashes.get(part) == h:
                 continue
+            if "C10" in self.deciders and part._element.tag.endswith("}chartSpace"):
+                # 'get or add creates at most one child', for the children that are keyed by an index: one c:dPt / c:dLbl per c:idx
+                C = "{http://schemas.openxmlformats.org/drawingml/2006/chart}"
+                seen_dups = self.__dict__.setdefault("idx_dups", {}).setdefault(part, set())
+                for hname, kind, v_, c_ in _indexed_duplicates(part._element):
+                    if (hname, kind, v_) not in seen_dups:
+                        seen_dups.add((hname, kind, v_))
+                        self.report("C10", "get-or-add-duplicate:c:%s>c:%s" % (hname, kind), "op %s: %d <c:%s> with c:idx %s in one <c:%s> of %s" % (opname, c_, kind, v_, hname, part.partname))
+                self.acc.count("indexed_children_checked_for_duplicates")
             new_part = part not in self.hashes
             self.hashes[part] = h
             errs, why = xsdkit.validate_part(etree.tostring(part._element))
@@ -516,7 +529,11 @@ class Run:
         import pptx
 
         try:
-            prs2 = pptx.Presentation(io.BytesIO(data))
+            stream = io.BytesIO()
+            stream.write(data)  # the stream as a save leaves it: cursor at the end (half of the time), else rewound
+            if self.saves % 2:
+                stream.seek(0)
+            prs2 = pptx.Presentation(stream)
         except Exception as e:  # noqa
             self.report("C02", "reopen-raises:%s" % type(e).__name__, "re-opening save #%d raised %r" % (self.saves, e))
             return None
@@ -591,6 +608,17 @@ class Run:
 
                 self.acc.inconclusive.append("oracle error after %s: %s" % (name, traceback.format_exc()[-800:]))
                 return
+
+
+def _indexed_duplicates(root):
+    """[(holder local name, 'dPt'|'dLbl', idx, count)] for every c:ser / c:dLbls holding several children with one c:idx."""
+    C = "{http://schemas.openxmlformats.org/drawingml/2006/chart}"
+    out = []
+    for holder in root.iter(C + "ser", C + "dLbls"):
+        for kind in ("dPt", "dLbl"):
+            idxs = [(k_.find(C + "idx").get("val") if k_.find(C + "idx") is not None else None) for k_ in holder.findall(C + kind)]
+            out += [(holder.tag.split("}")[1], kind, v_, c_) for v_, c_ in Counter(idxs).items() if c_ > 1]
+    return out
 
 
 def _misplaced_pair(msg):
